@@ -230,3 +230,6 @@ extend("C17", "The MULTIPLICITY RULE is proved by engine V for vectors of every 
               "their result, every distinct knot x carries max(mult_U(x) + P - p, mult_V(x) + P - q) (0 for a vector that does not contain x; lower continuity order wins) "
               "resp. min(mult_U(x), mult_V(x)) over the common knots (loop invariants over both operand scans, ghost witness / position functions, assumed contracts of "
               ".knots, mult() and __get_unique: A10). The assembly of the vector from (knot, multiplicity) pairs, the sort and the constructor call are checked per joint shape by engine S.")
+extend("C02", "Engine V also proves FunctionEvaluator.eval's selection for ALL parameters: an int first index (negative included) with a scalar gives exactly that row's value, "
+              "with a sequence one value per node in order, a unit-step slice (any start / stop, open ends) the corresponding rows of the SAME table in order (`__eval` by contract).")
+ENGINE_V += ["C02"]
